@@ -1248,12 +1248,13 @@ class Printer:
         else:
             self.stmt(b, n)
 
-    def decl_const(self, c):
-        self.emit(0, "const %s: %s = %s;" % (c["name"], type_src(c["ty"]), self.expr(c["expr"], naked_ok=False)))
+    def decl_const(self, c, pub=False):
+        self.emit(0, "%sconst %s: %s = %s;" % ("pub " if pub else "", c["name"], type_src(c["ty"]),
+                                                self.expr(c["expr"], naked_ok=False)))
 
-    def decl_struct(self, s):
+    def decl_struct(self, s, pub=False):
         kw = "struct" if s["kind"] == "struct" else "word%d" % s["bits"]
-        self.emit(0, "%s %s" % (kw, s["name"]))
+        self.emit(0, "%s%s %s" % ("pub " if pub else "", kw, s["name"]))
         self.emit(0, "{")
         for m, t in s["members"]:
             self.emit(1, "%s: %s," % (m, type_src(t)))
@@ -1352,3 +1353,99 @@ def shape_hash(prog):
 
     data = repr((ab(prog.consts), ab(prog.structs), ab(prog.funcs)))
     return hashlib.sha256(data.encode()).hexdigest()[:16]
+
+
+def flatten_names(x, out):
+    if isinstance(x, str):
+        out.add(x)
+    elif isinstance(x, (tuple, list)):
+        for y in x:
+            flatten_names(y, out)
+    elif isinstance(x, dict):
+        for y in x.values():
+            flatten_names(y, out)
+
+
+def split_modules(prog, rng, nmod):
+    """Partition the declarations of a program over nmod modules. Returns
+    ([(filename, [(kind, decl, is_pub)], [imported filenames])], info)."""
+    items = [("const", c) for c in prog.consts] + [("struct", s) for s in prog.structs] + [("func", f) for f in prog.funcs]
+    names = {d["name"]: (kind, d) for kind, d in items}
+
+    def refs(kind, d, interface_only):
+        out = set()
+        if kind == "const":
+            flatten_names(d["expr"], out)
+        elif kind == "struct":
+            flatten_names(d["members"], out)
+        else:
+            flatten_names([t for _n, t, _k in d["params"]], out)
+            flatten_names(d["ret"], out)
+            if not interface_only:
+                flatten_names(d["body"], out)
+                flatten_names(d["ret_expr"], out)
+        out.discard(d["name"])
+        return out & set(names)
+
+    where = {}
+    order = [d["name"] for _k, d in items]
+    for n in order:
+        where[n] = rng.randrange(nmod)
+    # every module non-empty if possible
+    for m in range(nmod):
+        if m not in where.values() and len(order) >= nmod:
+            where[rng.choice([n for n in order if list(where.values()).count(where[n]) > 1])] = m
+    needed = {m: set() for m in range(nmod)}
+    for n in order:
+        kind, d = names[n]
+        needed[where[n]] |= refs(kind, d, False)
+    # An import brings in *all* public items of the imported file, and imports are not re-exported, so
+    # a module must also import whatever the interfaces of those public items refer to. Iterate to a fixpoint.
+    changed = True
+    pub = set()
+    imports = {m: set() for m in range(nmod)}
+    while changed:
+        changed = False
+        for m in range(nmod):
+            for x in list(needed[m]):
+                if where[x] == m:
+                    continue
+                if x not in pub:
+                    pub.add(x)
+                    changed = True
+                if where[x] not in imports[m]:
+                    imports[m].add(where[x])
+                    changed = True
+            for src_mod in list(imports[m]):
+                for x in pub:
+                    if where[x] == src_mod:
+                        kind, d = names[x]
+                        extra = (refs(kind, d, True) | {x}) - needed[m]
+                        if extra:
+                            needed[m] |= extra
+                            changed = True
+    fname = lambda m: "m%d.pn" % m
+    mods = []
+    for m in range(nmod):
+        decls = [(names[n][0], names[n][1], n in pub) for n in order if where[n] == m]
+        rng.shuffle(decls)
+        mods.append((fname(m), decls, sorted(fname(x) for x in imports[m])))
+    return mods, {"where": where, "pub": sorted(pub)}
+
+
+def module_source(decls, imports, style=None):
+    p = Printer(Program(), style or Style())
+    p.lines = []
+    for imp in imports:
+        p.emit(0, 'import "%s";' % imp)
+    if imports:
+        p.emit(0, "")
+    for kind, d, is_pub in decls:
+        if kind == "const":
+            p.decl_const(d, is_pub)
+        elif kind == "struct":
+            p.decl_struct(d, is_pub)
+        else:
+            p.decl_func(d, is_pub)
+        p.emit(0, "")
+    return p.layout(p.lines)
